@@ -25,7 +25,7 @@ REQUIRED = {'node-dense': 50, 'get': 50, 'full': 50, 'sum': 50, 'mean': 50,
     'accuracy_on_data': 30, 'interface': 50, 'get_and_grad': 30,
     'props': 50, 'erank': 50, 'outer': 10, 'int-bitexact': 20,
     'large-exact': 200, 'dtype-upcast': 100, 'shared-objects': 200,
-    'accuracy-gap': 30,
+    'accuracy-gap': 30, 'many-sum': 60,
     'get_many': 50}
 ASSUMPTIONS = ['numpy longdouble (64-bit mantissa) contraction is the dense '
     'reference; tolerance 10*(sum ranks + d)*2^-52*absbound',
@@ -51,6 +51,8 @@ def gen_cases(seed, tier):
         out.append({'kind': 'shared', 'seed': int(rng.integers(1 << 62))})
     for j in range(40 if tier == 'quick' else 1000):
         out.append({'kind': 'gap', 'seed': int(rng.integers(1 << 62))})
+    for j in range(40 if tier == 'quick' else 1000):
+        out.append({'kind': 'manysum', 'seed': int(rng.integers(1 << 62))})
     for j in range(n):
         out.append({'seed': int(rng.integers(1 << 62)),
             'depth': int(rng.integers(1, 5 if tier == 'quick' else 8)),
@@ -136,6 +138,12 @@ def gen_tree(rng, depth, nleaf, int_mode):
             v = float(np.round(rng.normal() * 3, 3))
             if rng.random() < 0.2:
                 v = int(rng.integers(-4, 5))
+            elif op in ('add', 'sub') and rng.random() < 0.25:
+                # numbers around and far below the unit roundoff, and large
+                # ones: a number operand is a value, not a flag
+                v = float(rng.choice([1e-17, -3e-20, 5e-300, 2.220446049250313e-16,
+                    1.5e-16, -2e-16, 1e-16, -1e-16, 1.0000000000000002e-16,
+                    3e-15, 1e6, -4e5]))
         sub = gen_tree(rng, depth - 1, nleaf, int_mode)
         return [op, ['num', v], sub] if rng.random() < 0.5 else \
             [op, sub, ['num', v]]
@@ -347,7 +355,58 @@ def run_gap(case, ctx):
     ctx.nontrivial(['gap', n, int(g)])
 
 
+def run_manysum(case, ctx):
+    """Long sums: add applied 16..40 times in a row, and the same list
+    through add_many (its rounding steps are C02's subject; here only 'the
+    sum of the list, up to the stated accuracy per rounding step')."""
+    import teneva
+    rng = np.random.default_rng(case['seed'])
+    n = gen.rand_shape(rng, 2, 4, 2, 4)
+    d = len(n)
+    m = int(rng.integers(16, 41))
+    items = [gen.cores(rng, n, gen.rand_ranks(rng, d, 2), 'normal')
+        for _ in range(m)]
+    if rng.random() < 0.3:
+        items[int(rng.integers(m))] = float(np.round(rng.normal(), 2))
+    dense = [ref.dense_ld(Y) if isinstance(Y, list) else
+        np.full(n, Y, dtype=LD) for Y in items]
+    S = dense[0]
+    acc = items[0]
+    AB = ref.absbound(items[0]) if isinstance(items[0], list) else np.abs(S)
+    for Y, D in zip(items[1:], dense[1:]):
+        acc = teneva.add(acc, Y)
+        S = S + D
+        AB = AB + (ref.absbound(Y) if isinstance(Y, list) else np.abs(D))
+    why = ref.wellformed(acc, n)
+    if ctx.check('many-sum', why is None, f'chain of {m} add calls: {why}'):
+        ctx.close('many-sum', ref.dense_ld(acc), S, C * (ref.nterms(acc) + m)
+            * EPS * AB, f'chain of {m} add calls vs the dense sum')
+    e = 1e-10
+    tf = [None, 15, 4, 7][int(rng.integers(4))]
+    Z = teneva.add_many(items) if tf is None else \
+        teneva.add_many(items, e, 1e12, tf)
+    why = ref.wellformed(Z, n)
+    if ctx.check('many-sum', why is None, f'add_many of {m} items: {why}'):
+        # accumulated bound: every rounding step adds <= e ||partial sum||
+        fro = lambda A: float(np.sqrt(np.sum(np.asarray(A, dtype=LD) ** 2)))
+        P, E = dense[0], 0.
+        for j, D in enumerate(dense[1:]):
+            P = P + D
+            if (j + 1) % (tf or 15) == 0:
+                E += e * (fro(P) + E)
+        bound = E + e * (fro(S) + E)
+        err = fro(ref.dense_ld(Z) - S)
+        floor = 1e-7 * m * max(fro(D) for D in dense)     # Gram-matrix SVD
+        ctx.check('many-sum', err <= 2 * bound + floor, lambda: f'add_many '
+            f'of {m} items (trunc_freq {tf or "default"}): ||result - dense '
+            f'sum||_F = {err:.3e} (||sum|| = {fro(S):.3e}, bound '
+            f'{2 * bound + floor:.3e})')
+    ctx.nontrivial(['manysum', n, m, tf])
+
+
 def run_case(case, ctx):
+    if case.get('kind') == 'manysum':
+        return run_manysum(case, ctx)
     if case.get('kind') == 'shared':
         return run_shared(case, ctx)
     if case.get('kind') == 'gap':
